@@ -95,9 +95,9 @@ def symbolic_trace(rng, ncalls=10, via="liesel"):
         if cand:
             unodes[rng.choice(["lp", "lp", "ll", "lpr"])] = rng.choice(cand)
     # now and then a plain value node is of a user-defined class whose state carries extra information
-    plain = [i + 1 for i, p in enumerate(plan) if p["kind"] == "v" and not p.get("wrapped")]
-    if plain and rng.random() < 0.3:
-        plan[rng.choice(plain) - 1]["tagged"] = True
+    if rng.random() < 0.3:
+        plan.append({"kind": "v", "inp": [], "tagged": True})
+        plan.append({"kind": rng.choice(["c", "t"]), "inp": [len(plan)]})
     run = ProgramRun(plan, unodes)
     user = run.model
     hdr = run.header()
